@@ -114,6 +114,7 @@ var Registry = map[string]func(*Ctx){}
 
 // Meta data per property: level and the decided clause in words.
 type Meta struct {
+	Technique string
 	Level   string
 	Explain string
 	Assume  []string
@@ -170,3 +171,43 @@ func inPkgs(name string, prefixes ...string) bool {
 
 // uses: does value v (transitively through its expression tree) mention the rendered fragment?
 func mentions(v ssa.Value, frag string) bool { return strings.Contains(cfgx.Expr(v), frag) }
+
+// nilErrReturns lists the returns of f whose last result is the nil constant (success returns of an
+// error-returning function), resolving defer-spilled results.
+func nilErrReturns(f *cfgx.Fn) []*ssa.Return {
+	var out []*ssa.Return
+	for _, r := range f.Returns() {
+		if len(r.Results) == 0 {
+			continue
+		}
+		vals := f.ReturnValues(r)
+		if cfgx.IsNilConst(vals[len(vals)-1]) {
+			out = append(out, r)
+		}
+	}
+	return out
+}
+
+// everyPath checks that every acyclic path to `site` satisfies pred over its set of edge guards.
+// Returns ok and a description of a counterexample path.
+func everyPath(f *cfgx.Fn, site ssa.Instruction, pred func(g map[string]bool) bool) (bool, string) {
+	paths, ok := f.PathGuards(site, 5000)
+	if !ok {
+		return false, "too many paths (undecided)"
+	}
+	if len(paths) == 0 {
+		return false, "site unreachable"
+	}
+	for _, p := range paths {
+		if !pred(p) {
+			var gs []string
+			for k := range p {
+				gs = append(gs, k)
+			}
+			sort.Strings(gs)
+			// keep only one orientation of each comparison for readability
+			return false, "counterexample path guards: " + strings.Join(gs, " ; ")
+		}
+	}
+	return true, fmt.Sprintf("%d paths", len(paths))
+}
